@@ -2,16 +2,17 @@
    Statements only; every proof is [exact lemma]. *)
 From Coq Require Import NArith ZArith List Bool.
 From Coq.Strings Require Import Byte.
-From LOF Require Import Base.Bytes Model.Wire Model.Build Spec.Walk Proofs.WireP Proofs.BuildP Proofs.NormP Proofs.WalkP.
+From LOF Require Import Base.Bytes Model.Wire Model.Build Spec.Walk Proofs.WireP Proofs.BuildP Proofs.NormP Proofs.WalkP
+  Proofs.WalkAllP Proofs.WalkMsgP.
 Import ListNotations.
 Open Scope N_scope.
 
-(* THE FULL STATEMENT: the independent decoder recovers from the bytes exactly the value the
-   API calls built.  It is FALSE of the faithful model (known finding D10, refuted below),
-   and outside D10 it is proved only in part. *)
+(* THE FULL STATEMENT over all well-formed recipes: the independent decoder recovers from the
+   bytes exactly the value the API calls built.  It is FALSE of the faithful model: known
+   finding D10, refuted below. *)
 Definition C03_full_statement : Prop :=
   forall m xid, wf_m m = true -> xid < 4294967296 -> size (build_m xid m) <= 65535 ->
-  spec_decode (fst (marshal (build_m xid m))) = Some (snd (marshal (build_m xid m))).
+  spec_decode (fst (marshal (build_m xid m))) = Some (canon (snd (marshal (build_m xid m)))).
 
 (* refutation by a witness (replayed on the implementation by ./check C03: KNOWN-FINDING
    D10): a port statistics request with port 1 is read back as port 65536 *)
@@ -22,28 +23,54 @@ Theorem C03_refuted :
 Proof. exact c03_refuted_by_port_stats_request. Qed.
 Print Assumptions C03_refuted.
 
-(* proved part: fixed-layout elements are recovered value for value (type, length, every
-   argument at its width and byte order), in front of anything, alone and in lists *)
-Theorem C03_fixed_actions_partial : forall a fuel rest, std_arec_ok a = true ->
-  sdec_action (S fuel) (wire (build_a a) ++ rest) = Some (build_a a, rest).
-Proof. exact sdec_built_std_action. Qed.
-Print Assumptions C03_fixed_actions_partial.
+(* THE THEOREM: for every message recipe outside D10 whose arguments fit their fields
+   ([msg_ok]: every number below the width of its field, counts that match their lists,
+   constructor codes that exist, masks as long as their values, sizes below 65000 bytes, a
+   multipart type that matches its body; port / queue statistics requests are excluded) the
+   independent decoder returns exactly the value that was built - every fixed field, every
+   match field with and without mask, every instruction, action (all 26 kinds, conntrack
+   nesting to any depth, NAT optional parts in presence-bit order, learn specs, note, set-field,
+   reg-load2), bucket and nested bundled message, in order, with nothing left over.  [canon]
+   is the identity except for three presentation differences of the wire reader (a note's
+   padding belongs to the note, the port-mod address slot is seen at its 6 bytes, an empty
+   packet-out payload is no payload).  By induction over recipes. *)
+Theorem C03_built_messages_decode_to_themselves : forall m xid, msg_ok m = true -> xid < 4294967296 ->
+  spec_decode (fst (marshal (build_m xid m))) = Some (canon (snd (marshal (build_m xid m)))).
+Proof. exact spec_decode_built. Qed.
+Print Assumptions C03_built_messages_decode_to_themselves.
 
-Theorem C03_action_lists_partial : forall acts, forallb std_arec_ok acts = true ->
-  forall fuel, (length (flat_map wire (map build_a acts)) < fuel)%nat ->
-  sdec_actions fuel (flat_map wire (map build_a acts)) = Some (map build_a acts).
-Proof. exact sdec_built_std_actions. Qed.
-Print Assumptions C03_action_lists_partial.
+(* the same for the elements on their own, in front of any following bytes *)
+Theorem C03_actions : forall a, act_ok a = true -> forall fuel rest, (adepth a <= fuel)%nat ->
+  sdec_action (S fuel) (wire (norm (build_a a)) ++ rest) = Some (canon (norm (build_a a)), rest).
+Proof. exact sdec_built_action. Qed.
+Print Assumptions C03_actions.
 
-(* the whole stack on one rich value: masked match fields, nested conntrack + NAT optional
-   parts, learn specs, note, set-field, instructions in order *)
-Theorem C03_full_stack_example :
-  let m := MFlowMod 1 2 3 0 4 5 6 7 8 9 10
-             [MFStd 1 (AB []) (Some (AB [])); MFReg 3 7 (Some (4%Z, 9%Z)); MFStd 7 (AB []) None; MFTunMeta 2 [x01; x02; x03] []]
-             [IApply [(ACT [CtCommit; CtZoneImm 5] 0 [ANat [NatSNAT; NatIP4Min []; NatProtoMax 9]; ASetField (MFStd 3 (AN 2048) None)], false);
-                      (ADecTtlCntIds 3 [1; 2; 3], true); (ANote [x0a; x0b; x0c; x0d; x0e; x0f], false);
-                      (ALearn 1 2 3 4 5 6 7 8 [LSpec 0 16 ((0,0,false,0),0) ((1,3,false,4),0) [x01;x02]; LSpec 4 8 ((1,2,false,4),0) ((0,0,false,0),0) []], false)];
-              IGoto 4; IWriteMeta 5 6] in
-  let t := build_m 99 m in
-  spec_decode (fst (marshal t)) = Some (snd (marshal t)).
-Proof. exact full_stack_example. Qed.
+Theorem C03_match_fields : forall r rest, mf_ok r = true -> sdec_oxm (wire (build_mf r) ++ rest) = Some (build_mf r, rest).
+Proof. exact sdec_built_mf. Qed.
+Print Assumptions C03_match_fields.
+
+Theorem C03_matches : forall fs rest, match_ok fs = true -> sdec_match (wire (build_match fs) ++ rest) = Some (build_match fs, rest).
+Proof. exact sdec_built_match. Qed.
+Print Assumptions C03_matches.
+
+Theorem C03_instructions : forall i rest, instr_ok i = true ->
+  sdec_instr (wire (norm (build_i i)) ++ rest) = Some (canon (norm (build_i i)), rest).
+Proof. exact sdec_built_instr. Qed.
+Print Assumptions C03_instructions.
+
+Theorem C03_buckets : forall b rest, bucket_ok b = true ->
+  sdec_bucket (wire (norm (build_b b)) ++ rest) = Some (canon (norm (build_b b)), rest).
+Proof. exact sdec_built_bucket. Qed.
+Print Assumptions C03_buckets.
+
+(* non-vacuity: a rich recipe meets the hypothesis (and the theorem's conclusion, computed) *)
+Definition C03_example_recipe : mrec :=
+  MFlowMod 1 2 3 0 4 5 6 7 8 9 10
+    [MFStd 1 (AB []) (Some (AB [])); MFReg 3 7 (Some (4%Z, 9%Z)); MFStd 7 (AB []) None; MFTunMeta 2 [x01; x02; x03] []]
+    [IApply [(ACT [CtCommit; CtZoneImm 5] 0 [ANat [NatSNAT; NatIP4Min []; NatProtoMax 9]; ASetField (MFStd 3 (AN 2048) None)], false);
+             (ADecTtlCntIds 3 [1; 2; 3], true); (ANote [x0a; x0b; x0c; x0d; x0e; x0f], false);
+             (ALearn 1 2 3 4 5 6 7 8 [LSpec 0 16 ((0,0,false,0),0) ((1,3,false,4),0) [x01;x02]; LSpec 4 8 ((1,2,false,4),0) ((0,0,false,0),0) []], false)];
+     IGoto 4; IWriteMeta 5 6].
+Theorem C03_example_meets_hypothesis : msg_ok C03_example_recipe = true /\ msg_ok (MBundleAdd 1 2 3 C03_example_recipe) = true.
+Proof. exact c03_example_ok. Qed.
+Print Assumptions C03_example_meets_hypothesis.
